@@ -152,6 +152,23 @@ HISTORY = {
     "C10/I10-m2": ("missed", "NOT CAUGHT by C10's check (no program of its menu decodes a bad gzip header); reported by C16's check (history independence of pooled readers)"),
     "C06/I6-m1": ("missed", "a failed compressed write (codec that cannot be set up) before the concurrent batch reads"),
     "C16/I6-m1": ("missed", "two ReadFrom calls into one writer (WritePlan.Split)"),
+    # round 9
+    "C01/J1-m1": ("missed", "wsim: Writers built by NewWriter(WriterConfig) in every bias, not only in C08's strata"),
+    "C12/J1-m1": ("missed", "an internal topic (__consumer_offsets) in the worlds, named by metadata steps (C19's check reported it too)"),
+    "C02/J2-m1": ("missed", "NOT CAUGHT by C02's check (its logs have no holes inside v0/v1 wrappers); reported by C05's check (v1-wrapper offsets)"),
+    "C02/J2-m2": ("missed", "record timestamps beyond the year 2262 in the generator (which exposed F30 on the encoding side)"),
+    "C13/J2-m2": ("missed", "unit TestWriterDefaultBalancer: a Writer without Balancer spreads a sequence of calls evenly"),
+    "C03/J3-m1": ("missed", "oracle was too forgiving: with StartOffset=LastOffset any start was accepted; now never below the records that existed before the first join"),
+    "C14/J3-m1": ("missed", "NOT CAUGHT by C14's check (it calls AssignGroups; the change is in the conversion to SyncGroup requests); reported by C03's check (partition-not-assigned-once, read off the wire)"),
+    "C14/J3-m2": ("missed", "NOT CAUGHT by C14's check (same reason: JoinGroup metadata conversion); reported by C04's check (TestGroupRequests compares the metadata of every advertised protocol)"),
+    "C15/J4-m2": ("missed", "ending event heartbeat-silent (a heartbeat the coordinator never answers) + ConsumerGroupConfig.Timeout as a case parameter"),
+    "C16/J5-m1": ("missed", "the reference zstd decoder keeps the 128 MiB window limit of libzstd / zstd-jni"),
+    "C16/J5-m2": ("missed", "NOT CAUGHT by C16's check (a data race without wrong bytes; its race-built unit reports races as infrastructure failures, thorough tier only); reported by C10's check (TestCodecPrograms)"),
+    "C07/J7-m2": ("missed", "NOT CAUGHT in the quick tier: needs another submitter (or the batch timer) between the release of the partition lock and the queueing of a long run of sealed batches"),
+    "C18/J7-m2": ("missed", "brokers that do not list SaslHandshake in their ApiVersions answer (Transport entries)"),
+    "C19/J8-m2": ("missed", "NOT CAUGHT by C19's check (its worlds do not change while they are queried); reported by C12's check (coordinator moves)"),
+    "C09/J9-m2": ("missed", "reader stratum: the queue is full to the last slot when the partition reader has an error to report (broker state error-fetch, QueueCap)"),
+    "C11/J10-m2": ("missed", "NOT CAUGHT: like C11/I1-m2 -- after an error code followed by surplus bytes the Conn stays open and misaligned, later operations still fail unless the surplus is crafted as the answer with the next correlation id"),
 }
 
 
